@@ -332,7 +332,9 @@ func (o *structFieldsCBOR) FromCBOR(dm cbor.DecMode, data []byte) error {
 		return err
 	}
 
-	if mapLen != 0 {
+	// note: mapLen is also 0 for a definite-length empty map; only additional
+	// information 31 signifies indefinite-length encoding.
+	if additionalInfo != 31 {
 		// Each map entry takes up at least two bytes of input (one
 		// for the key and one for the value), so a declared length
 		// exceeding that cannot be satisfied. Check this up front, so
@@ -350,7 +352,7 @@ func (o *structFieldsCBOR) FromCBOR(dm cbor.DecMode, data []byte) error {
 				return fmt.Errorf("map item %d: %w", i, err)
 			}
 		}
-	} else { // mapLen == 0 --> indefinite encoding
+	} else { // indefinite encoding
 		o.Fields = make(map[int]cbor.RawMessage)
 
 		i := 0
